@@ -33,15 +33,18 @@ PInit == stage = "start" /\ errors = FALSE /\ unsafe = FALSE /\ object = FALSE /
 Frontend(e, n) == /\ stage = "start"
                   /\ stage' = "frontend" /\ errors' = e /\ entries' = n
                   /\ UNCHANGED <<unsafe, object>>
-(* type inference of everything; e = it reported an error, u = something was flagged unsafe *)
-Infer(e, u) == /\ stage = "frontend"
-               /\ (e => u)            \* an error is always attached to code that is flagged unsafe
-               /\ (u => (e \/ errors)) \* and nothing is flagged without an error having been reported
-               /\ stage' = "infer" /\ errors' = (errors \/ e) /\ unsafe' = u
-               /\ UNCHANGED <<object, entries>>
+(* type inference of everything; e = it reported an error, x = it reported an error attached to
+   an expression, u = something was flagged unsafe to compile.  (Errors about a whole definition -
+   the entry point's signature, an extern global without a type - have no expression.) *)
+Infer(e, x, u) == /\ stage = "frontend"
+                  /\ (x => e)
+                  /\ (x => u)            \* an error on an expression flags the code containing it
+                  /\ (u => (e \/ errors)) \* and nothing is flagged without an error having been reported
+                  /\ stage' = "infer" /\ errors' = (errors \/ e) /\ unsafe' = u
+                  /\ UNCHANGED <<object, entries>>
 Report == /\ stage = "infer" /\ errors
           /\ stage' = "diagnostics" /\ UNCHANGED <<errors, unsafe, object, entries>>
-Comptime == /\ stage = "infer" /\ ~errors /\ ~unsafe
+Comptime == /\ stage = "infer" /\ ~errors
             /\ stage' = "comptime" /\ UNCHANGED <<errors, unsafe, object, entries>>
 NoEntry == /\ stage = "comptime" /\ entries # 1
            /\ stage' = "no-entry" /\ UNCHANGED <<errors, unsafe, object, entries>>
@@ -51,7 +54,7 @@ Link == /\ stage = "object"
         /\ stage' = "linked" /\ UNCHANGED <<errors, unsafe, object, entries>>
 
 PNext == \/ \E e \in BOOLEAN, n \in 0..3 : Frontend(e, n)
-         \/ \E e, u \in BOOLEAN : Infer(e, u)
+         \/ \E e, x, u \in BOOLEAN : Infer(e, x, u)
          \/ Report \/ Comptime \/ NoEntry \/ Codegen \/ Link
 PSpec == PInit /\ [][PNext]_pvars
 
